@@ -72,8 +72,8 @@ def main():
             print('  ', c, r.returncode, res[c]['clauses'][:3])
             meta['ran'].append('VERIF_REPO=<scratch worktree with patch> ./check %s --tier quick' % c)
         meta['checks'] = res
-        meta['caught_by'] = sorted(c for c in res if res[c]['exit'] == 1)
-        meta['machinery_failures'] = sorted(c for c in res if res[c]['exit'] not in (0, 1))
+        meta['caught_by'] = sorted(c for c in res if res[c]['exit'] == 1 and res[c]['clauses'])
+        meta['machinery_failures'] = sorted(c for c in res if res[c]['exit'] not in (0, 1) or (res[c]['exit'] == 1 and not res[c]['clauses']))
         shutil.rmtree(outdir, ignore_errors=True)
     finally:
         sh('git -C /repo worktree remove --force %s' % scratch)
